@@ -693,6 +693,69 @@ func (g *gen) silent() Desc {
 	return d
 }
 
+// pager: one operation with more than 100 (or 300) callback executions: a paged output, one
+// callback run per page (a pager callback, optionally alternating with a confirmation callback),
+// and a completing callback on the last page.
+func (g *gen) pager(class int) Desc {
+	r := g.r
+	d := Desc{Family: "pager", Hint: "complete", Script: g.script, Replies: map[string][]string{}, Echo: r.Intn(3) == 0, TimeoutMs: 900}
+	switch class {
+	case 3:
+		d.Pager = 60 + r.Intn(41) // control: at most 100 pages
+	case 1:
+		d.Pager = 101 + r.Intn(40)
+	default:
+		d.Pager = 301 + r.Intn(60)
+	}
+	d.MaxLines = d.Pager + 5
+	for d.Input == "" {
+		d.Input = inputs[r.Intn(len(inputs))]
+	}
+	perm := r.Perm(len(g.pool))
+	more, conf, fin, decoy := g.pool[perm[0]], g.pool[perm[1]], g.pool[perm[2]], g.pool[perm[3]]
+	d.PageLine = strings.Join(g.fill(1+r.Intn(3)), " ")
+	d.More = "--" + g.render(more) + "--"
+	d.Final = g.render(fin) + g.tails[r.Intn(len(g.tails))]
+	// the long dialogue is the point: draw trigger forms until the trigger holds on its page end
+	fit := func(cb *CB, w, text string) {
+		for n := 0; n < 30; n++ {
+			g.trigger(cb, w)
+			if t, err := mkTrigger(*cb); err == nil && t.holds("0/0.0\n"+text) {
+				return
+			}
+		}
+	}
+	cbs := []CB{{Name: "pager", Answers: true, Answer: []string{" ", "", "q"}[r.Intn(3)], ResetOpt: r.Intn(3) == 0}}
+	fit(&cbs[0], more, d.More)
+	if r.Intn(2) == 0 {
+		d.Confirm = g.render(conf) + "? [y/n]: "
+		cb := CB{Name: "confirm", Answers: true, Answer: "y"}
+		fit(&cb, conf, d.Confirm)
+		cbs = append(cbs, cb)
+	}
+	done := CB{Name: "done", Complete: true, NilFunc: r.Intn(4) == 0, NoReset: r.Intn(3) == 0}
+	fit(&done, fin, d.Final)
+	cbs = append(cbs, done)
+	if r.Intn(2) == 0 {
+		cb := CB{Name: "decoy", Answers: true, Answer: "n"}
+		g.trigger(&cb, decoy)
+		cbs = append(cbs, cb)
+	}
+	r.Shuffle(len(cbs), func(i, j int) { cbs[i], cbs[j] = cbs[j], cbs[i] })
+	d.CBs = cbs
+	g.transport(&d)
+	// pages are short: keep the number of chunks per page small
+	if d.Seg.Mode == "fixed" && d.Seg.Size < 8 || d.Seg.Mode == "geom" {
+		d.Seg.Mode, d.Seg.Size = "mix", 40
+	}
+	if d.ReadSize < 16 {
+		d.ReadSize = 64
+	}
+	d.Seg.Delay = []string{"", "gosched"}[r.Intn(2)]
+	d.ReadDelayUs = []int{0, 20}[r.Intn(2)]
+	return d
+}
+
 // admissible enforces the generator's preconditions; the reference trigger is evaluated by brute
 // force on the empty output.
 func admissible(d Desc) bool {
@@ -722,7 +785,7 @@ func admissible(d Desc) bool {
 			return false
 		}
 	}
-	for _, s := range append([]string{d.Opening, d.Default}, flat(d.Replies)...) {
+	for _, s := range append([]string{d.Opening, d.Default, d.PageLine, d.More, d.Confirm, d.Final}, flat(d.Replies)...) {
 		if strings.ContainsAny(s, "\r\x1b") {
 			return false
 		}
@@ -742,12 +805,17 @@ func flat(m map[string][]string) []string {
 }
 
 // GenCase draws one admissible case.
-func GenCase(r *rand.Rand) Desc {
+func GenCase(r *rand.Rand, long int) Desc {
 	for {
 		g := newGen(r)
 		var d Desc
 		x := r.Intn(100)
+		if long > 0 {
+			x = -1
+		}
 		switch {
+		case x < 0:
+			d = g.pager(long)
 		case x < 15:
 			d = g.silent()
 		case x < 33:
@@ -780,7 +848,7 @@ func init() {
 			"with own (?i) / contains+regexp / not-contains present-before, present-after, absent, other case / once / complete / complete without function / " +
 			"literal texts with leading / trailing blanks, tabs, newlines which the device sometimes leaves out / not-contains words with blanks around them occurring inside other words / reset-output off / next-timeout / functions that return an error on a chosen run (own validation error, or a one-shot transport write fault on the answer's return character); in 55 % of the cases trigger texts, patterns, not-contains texts and device output use letters with case from the Latin-1 supplement, " +
 			"Cyrillic, Greek and a few whose case mapping changes the byte length, printed by the device in lower / Title / UPPER case) against a causal scripted device (answers typed by the callbacks advance the dialogue; echo on/off; repeated questions; " +
-			"several keywords in one text; decoys sharing keywords) under PRNG segmentation (1..16-byte, whole, geometric, mixed reads; boundaries fall inside multi-byte letters); texts of very different length so that the output a callback " +
+			"several keywords in one text; decoys sharing keywords; 1 % of the cases are paged outputs of 60-100 / 101-140 / 301-360 pages with one callback run per page and a completing callback on the last page) under PRNG segmentation (1..16-byte, whole, geometric, mixed reads; boundaries fall inside multi-byte letters); texts of very different length so that the output a callback " +
 			"object is checked against shrinks and grows; 40 % of the chains with an input repeat the operation 2-3 times with the same callback objects. " +
 			"Every firing is judged against the transport read log (argument = chunks since last reset up to a boundary; no trigger held at the boundaries in between; " +
 			"fired callback = first holding in list order), then the end of the operation (result, once error, timeout error and its time). " +
@@ -800,7 +868,7 @@ func init() {
 			"'timed out although a trigger held' is a violation only if the chunk had been delivered >= 300 ms before the deadline and the load canary was quiet; otherwise inconclusive",
 			"the timeout in force after a next-timeout callback is that value for the next loop; for later loops either that value or the operation's timeout is accepted; " +
 				"lower bound exact, upper bound +1 s (inconclusive under load)",
-			"the device goes silent after 10-12 input lines (bounds every dialogue)",
+			"the device goes silent after 10-12 input lines, or after its last page (bounds every dialogue)",
 		},
 		Gen: func(tier string, seed int64) []mon.Case {
 			n := 800
@@ -810,7 +878,12 @@ func init() {
 			r := rand.New(rand.NewSource(seed*104729 + 18))
 			cs := make([]mon.Case, 0, n)
 			for i := 0; i < n; i++ {
-				cs = append(cs, mon.MkCase(fmt.Sprintf("c18/%05d", i), GenCase(r)))
+				// one paged (long) dialogue per hundred cases: 101-140 pages, 301-360 pages, control (60-100) in turn
+				long := 0
+				if i%100 == 37 {
+					long = 1 + (i/100)%3
+				}
+				cs = append(cs, mon.MkCase(fmt.Sprintf("c18/%05d", i), GenCase(r, long)))
 			}
 			return cs
 		},
